@@ -127,3 +127,28 @@ ADDENDA = {
 for _k, (_t, _q) in ADDENDA.items():
     CLAIMS[_k]["text"] = CLAIMS[_k]["text"] + " " + _t
     CLAIMS[_k]["technique"] = CLAIMS[_k]["technique"] + _q
+
+# Clauses added after the second round of seeded changes and the agents' reports of pre-existing defects (DESIGN.md §3, last table)
+ADDENDA2 = {
+ "C01": "Also: no permission bit of a new record comes from a constant; Rename constructs no record; the flag reaches the handle on every path of OpenFile.",
+ "C02": "Also: the O_APPEND offset is handed back; an empty write mutates nothing; the handle's Stat loads the content; WriteAt refuses O_APPEND handles; Seek validates before storing the offset; the in-memory store keeps the blob it is given.",
+ "C03": "Also: mount.FS.Rename scans the mount table for mount points below the old name (known finding).",
+ "C04": "Also: look-ups made with a name merely derived from the root are not ErrInvalid-class, so a parent check placed before the name's validation is a violation.",
+ "C05": "Also: TrimPrefix(x, y+\"/\") is preceded by the case x == y.",
+ "C06": "Also: every capability-probing helper probes MountFS; the cross-mount destination gets the source's mode through OpenFile and Chmod.",
+ "C07": "Also: every capability-probing helper probes MountFS (the generic Sub view delegates through it).",
+ "C08": "Also: io/fs.ReadDir is not an acceptable fallback; the recursive removal classifies with Lstat; only SeekFile invokes Seek.",
+ "C09": "Also: a view built from an os.FS keeps every string configuration field of its parent.",
+ "C10": "Also: the result of the invalidating Remove is read.",
+ "C11": "Also: the invalidating Remove's result is read; the per-path lock table never deletes entries; no error of a step of the fill is dropped; the returned handle is rewound or re-opened.",
+ "C12": "Also: parents are created with the recursive MkdirAll helper; the final wait polls the error channel again when the writers' completion wins the select.",
+ "C13": "Also: the context behind Done() derives from context.Background.",
+ "C14": "Also: element k of a ([]*T, []error) look-up is used only where element k of the errors is nil; a recorded store error is overwritten only where it is nil; per-path result slices keep their length on the failure path; in a move the store of the new name aborts the transaction when it failed.",
+ "C15": "Also: plain map fields of mutex-owning structs are accessed with the mutex held; methods of keyvalue.FS store into no field of the shared FS value.",
+ "C16": "Also: a sum with the caller's count is formed only where the count is bounded above (integer overflow).",
+ "C17": "Also: delegation counts as a closed check only if the callee is itself checked on every success path; methods of the OS-backed file call no by-name os function.",
+ "C18": "Also: with append-ordered results every operation reserves its slot before its handler runs.",
+ "C19": "Also: no method of the slice-backed blob panics on purpose; View and Slice never return the receiver; the js/wasm blob never returns the slice that backs its cache.",
+}
+for _k, _t in ADDENDA2.items():
+    CLAIMS[_k]["text"] = CLAIMS[_k]["text"] + " " + _t
